@@ -25,7 +25,7 @@ RUN_TIMEOUT_S = 900
 
 def gen(src, tier):
     strategy = src.choice("strategy", ["filter", "fixedpoint", "fixedinterval"])
-    cfg = configs.gen_config(src, strategy=strategy, qmax=8, priors=("iwp", "ioup", "matern"), inits=("exact",),
+    cfg = configs.gen_config(src, strategy=strategy, qmax=8, priors=("iwp", "ioup", "matern"), inits=("exact", "exact", "diffuse"),
                              allow_constraint_init=False, calib=src.choice("calib", ["none", "dynamic", "dynamic", "mle"]))
     script = scen.gen_history(src, nsteps=(2, 5), p_reject=0.3, hb_exp=(-2.5, -0.3), rel_lo=src.choice("rel_lo", [0.3, 0.02]))
     return {"cfg": cfg, "script": script, "eps": 1e-8, "final": scen.gen_final(src),
@@ -83,6 +83,36 @@ def execute(sc):
             viol.append({"inv": "SDE-composition", "msg": f"transitions over {h1:.3g} then {h2:.3g} do not compose to the transition over {h1 + h2:.3g}: drift {eA:.2e}, noise {eQ:.2e}"})
             break
     probes["checkpoint_splits_composed"] = n_split
+    # ---- every Pade/Legendre order offered, on the scaled drift / dispersion matrices this run discretised
+    #      (monitor-executed probe: the float64 priors themselves only ever use order 9)
+    if cfg["prior"] != "iwp" and mon.calls and not viol:
+        from probdiffeq.backend import linalg as plinalg
+        from probdiffeq.util import gram_util
+
+        pr = b.prior
+        for dt, s_ in mon.calls[:2]:
+            p, p_inv = pr.precon_fun(jnp.asarray(dt))
+            p = onp.repeat(onp.asarray(p, dtype=float), d)
+            p_inv = onp.repeat(onp.asarray(p_inv, dtype=float), d)
+            A_p = dt * p_inv[:, None] * onp.asarray(pr.A, dtype=float) * p[None, :]
+            B_p = onp.sqrt(abs(dt)) * onp.abs(p_inv[:, None]) * onp.asarray(pr.B, dtype=float)
+            Ar, Qr = b.model.prior.transition(mp.mpf(float(dt)), [mp.mpf(1)] * d)
+            Ar, Qr = embed.to_np(Ar), embed.to_np(Qr)
+            Phi_ref = Ar * onp.outer(p_inv, p)
+            G_ref = Qr * onp.outer(p_inv, p_inv)
+            for name in ("pade_and_legendre_3", "pade_and_legendre_5", "pade_and_legendre_7", "pade_and_legendre_9", "pade_and_legendre_13"):
+                if not hasattr(gram_util, name):
+                    continue
+                eA, L = gram_util.exp_gram_cholesky(pade_legendre=getattr(gram_util, name)(), solve=plinalg.solve_lu)(jnp.asarray(A_p), jnp.asarray(B_p))
+                eA, L = onp.asarray(eA, dtype=float), onp.asarray(L, dtype=float)
+                eA_err = float(onp.max(onp.abs(eA - Phi_ref)) / (onp.max(onp.abs(Phi_ref)) + 1e-300))
+                eG_err = monitors.rel_cov(L @ L.T, G_ref, floor=1e-10)
+                stats_key = name[-2:].strip("_")
+                probes["pade_orders_probed"] = probes.get("pade_orders_probed", 0) + 1
+                if max(eA_err, eG_err) > 1e-9:
+                    viol.append({"inv": "SDE-pade-order", "msg": f"{name}: exp / Gramian of the scaled matrices of transition(dt={dt:.3g}) differ from the exact ones (|A_p|_1 = {onp.max(onp.sum(onp.abs(A_p), axis=0)):.2g}): exponential {eA_err:.2e}, Gramian {eG_err:.2e}"})
+            if viol:
+                break
     # ---- linearity in the base scale: twin prior with c * Lambda
     if not viol and mon.calls:
         c = sc["c"]
